@@ -52,7 +52,7 @@ func prodRegistry() *migration.Registry {
 const (
 	inNone         = "none"
 	inCancelCommit = "cancel-at-commit" // ctx cancelled inside the k-th commit's completion callback
-	inCancelGate   = "cancel-at-read"   // ctx cancelled when the k-th ingest range is first read
+	inCancelGate   = "cancel-at-read"   // ctx cancelled when the k-th work item (bt ingest range / sdl block) is first read by a worker
 	inFail         = "fail-commit"      // the k-th commit returns an error and applies nothing
 	inCancelStart  = "cancel-before-run"
 )
@@ -91,17 +91,24 @@ func execRun(t *testing.T, img *memory.Database, perm [4]int, in interrupt) (out
 			if op != "get" {
 				return
 			}
-			r, ok := isRangeStartHeader(key)
+			id, ok := isRangeStartHeader(key)
+			if ok {
+				id %= 4 // ranges of one pass are consecutive, so r%4 identifies them (<= 4 per pass here)
+			} else if len(key) == 9 && key[0] == byte(db.BlockCommitments) {
+				// statedifflength worker starting a block: parked too, so that the assignment of blocks to the
+				// per-worker batches (hence every crash image) is a function of the release policy, not of the scheduler
+				id, ok = 1000+binary.BigEndian.Uint64(key[1:]), true
+			}
 			if !ok {
 				return
 			}
 			mu.Lock()
-			out.arrivals++
+			out.arrivals++ // ingest ranges of blocktransactions and blocks of statedifflength alike
 			if in.Kind == inCancelGate && out.arrivals == in.K {
 				cancel()
 			}
 			ch := make(chan struct{})
-			parked[r%4] = ch // ranges of one pass are consecutive, so r%4 identifies them (<= 4 per pass here)
+			parked[id] = ch
 			mu.Unlock()
 			<-ch
 		})
@@ -132,14 +139,23 @@ func execRun(t *testing.T, img *memory.Database, perm [4]int, in interrupt) (out
 			default:
 			}
 			mu.Lock()
-			best, bestRank := uint64(99), 99
-			for r := range parked {
-				if perm[r] < bestRank {
-					best, bestRank = r, perm[r]
+			best, bestRank := uint64(0), 1<<30
+			for id := range parked {
+				rank := 0
+				switch {
+				case id < 1000:
+					rank = perm[id]
+				case perm[0] < perm[3]: // statedifflength blocks: lowest parked block first ...
+					rank = int(id)
+				default: // ... or highest first
+					rank = 5000 - int(id)
+				}
+				if rank < bestRank {
+					best, bestRank = id, rank
 				}
 			}
 			var ch chan struct{}
-			if bestRank != 99 {
+			if bestRank != 1<<30 {
 				ch = parked[best]
 				delete(parked, best)
 			}
